@@ -10,7 +10,7 @@ Cells are concrete and pairwise distinct; KEYS, assigned values and positions ar
 Oracle: copy of the list-of-rows with exactly the addressed cells replaced / removed / marked."""
 from vf.cond import Cond
 from vf import layouts
-from vf.refmodels import obs_container, obs_frame_full, py_positions
+from vf.refmodels import obs_container, obs_frame_full, py_positions, coherent_labels
 
 CONDS = {}
 ASSUMPTIONS = ['cells concrete and distinct; labels concrete; keys and assigned values symbolic']
@@ -87,6 +87,9 @@ def run_update(env, op, nrows, layout, rk, ck, value=None):
         else:
             r = f.drop.iloc[rk, ck]
         got = obs_container(env, r)
+        if got[0] == 'F' and exp[0] == 'F':
+            got = got + [coherent_labels(env, r)]
+            exp = exp + [True]
     except IndexError:
         got = ['raises', 'IndexError']
     after = snapshot(env, f)
